@@ -731,6 +731,9 @@ func (w *mw) exec(task string, op mwOp, fromHandler bool) *opRec {
 				r.evalRan = true
 				w.evalIn(op.id)
 			}, nil)
+			// Eval may have been served by another goroutine, which is still
+			// running: do nothing observable before being scheduled again
+			w.s.Yield("h.woken", "")
 			if ok {
 				r.res = am.Executed
 			} else {
